@@ -394,6 +394,12 @@ def dep_bound(s, env):
     return None
 
 
+def _canon(s):
+    import json
+
+    return json.dumps(s, sort_keys=True)
+
+
 def order(s1, s2, env):
     """Partial specificity order as far as the documentation fixes it."""
     c1, c2 = static_bound(s1, env), static_bound(s2, env)
@@ -404,8 +410,10 @@ def order(s1, s2, env):
         if a and b:
             return UNSPEC
         return LESS if a else MORE if b else NONE
-    if s1 == s2:
+    if s1[0] != "dep" and _canon(s1) == _canon(s2):  # NB: python's == would equate False and 0
         return SAME
+    # NB: Dependent[bound, pred] creates a new, unequal type each time it is written, so two parameters
+    # with the same ["dep", ...] spec are two different types on the same bound (unordered).
     d1, d2 = is_dependent_spec(s1), is_dependent_spec(s2)
     if d1 and c2 is not None:
         b = dep_bound(s1, env)
